@@ -12,7 +12,7 @@ from .c10_meta import TOL
 ID = "C10"
 SHRINK_LISTS = ("chunks", "chunks_a", "chunks_b")
 SHRINK_MIN = {"n": 1, "nchans": 1, "k": 1}
-FAMILIES = ["constant", "onebit", "smallint", "gauss", "gauss-bigmean", "heavy", "one-constant", "step", "step"]
+FAMILIES = ["constant", "onebit", "smallint", "gauss", "gauss-bigmean", "heavy", "one-constant", "step", "step", "tiny", "huge"]
 CAL = bool(os.environ.get("VERIF_C10_CALIBRATE"))
 
 
@@ -106,6 +106,10 @@ def make_data(sc) -> np.ndarray:
         x = r.normal((sig * r.choice([10, 100, 1000], size=nch))[None, :], sig[None, :], size=(n, nch))
     elif fam == "heavy":
         x = r.standard_t(3, size=(n, nch)) * 4
+    elif fam in ("tiny", "huge"):
+        # the same statistics at very small / very large amplitude (float32 files hold arbitrary units)
+        scale = r.choice([1e-3, 1e-5, 3e-6]) if fam == "tiny" else r.choice([1e3, 1e5])
+        x = r.gamma(2.0, 1.0, size=(n, nch)) * scale
     elif fam == "step":
         # non-stationary: the level jumps by several sigma at a random sample (two parts of a merge
         # then have very different means, which is where the pairwise-merge cross terms matter)
@@ -207,6 +211,8 @@ def execute(sc, ctx) -> None:
         ctx.probe("constant-channel")
     if sc["family"] == "gauss-bigmean":
         ctx.probe("huge-mean")
+    if sc["family"] == "tiny":
+        ctx.probe("tiny-amplitude")
     ctx.sig += [mode, sc["family"], f"chunks{min(len(sc['chunks']), 4)}", sc["order"]]
     whole = readout(push(x, [n], mode, n), mode)
     check("whole", whole, tr, mode, sc, ctx)
